@@ -44,6 +44,13 @@ def stmtPool : Array String := #[sensitiveStmt, sensitiveStmt, sensitiveStmt, se
   "A(certifier) I(a <zq1> b) Bdir(\"zq3onload= x)",
   "A(x) I('zq4;alert( 1) Bdir(</script><zq6)",
   "A(a) {I(b) [XOR] I(c)} Bdir(d)",
+  -- statements that yield several result entries (component pairs, also three-way and with nested statements)
+  "A(actor) D(must) {I(act) Bdir(thing) [XOR] I(other) Bdir(stuff)}",
+  "A(actor) D(must) {I(act) Bdir(thing) [XOR] I(other) Bdir(stuff)}",
+  "A(officer) {I(inspect) Bdir(farm) [OR] {I(audit) Bdir(ledger) [AND] I(report) Bdir(result)}} Cex(annually)",
+  "A(actor) D(must) I(act) {Cac{A(b) I(c)} [OR] Cac{A(d) I(e)}}",
+  -- leading / trailing white space must arrive as typed
+  " A(actor) I(act) Bdir(padded) ", "A(actor) I(act) Bdir(line end)\n",
   "A(x", "plain words without components", "A(a [AND] b [OR] c)", "A(one) A(one)",
   "A,p(only a property)", "A(<!--zq5) I(&amp; &lt;)",
   -- characters with a meaning in URL encoding (GET parameters must arrive as typed)
@@ -57,8 +64,8 @@ def stmtPool : Array String := #[sensitiveStmt, sensitiveStmt, sensitiveStmt, se
   "A(actor) I(act) Cac{A(a) I(b)} [AND] Cac{A(<zq1>) I(d)} [XOR] Cac{A(e) I('zq4;alert( f)}",
   "A(actor) I(act) {I(<zq1>) [XOR] I(c)} {Bdir(</script><zq6) [OR] Bdir(e)}", "A(actor) I(()) Bdir(<zq1> [AND] )"]
 
-def origPool : Array String := #["", "The original statement.", "orig </textarea><zq2 text", "a|b\nc \"q\" <zq1>", "Ünïcode ö", "fee + surcharge = 100% & more"]
-def idPool : Array String := #["", "1", "123", "7.a", "\"zq3onload=", "<zq1>", "Art5+6", "a%2Bb c"]
+def origPool : Array String := #["", "The original statement.", " padded original ", "ends with a line break\n", "orig </textarea><zq2 text", "a|b\nc \"q\" <zq1>", "Ünïcode ö", "fee + surcharge = 100% & more"]
+def idPool : Array String := #["", "1", "123", " 7", "8 ", "9\n", "7.a", "\"zq3onload=", "<zq1>", "Art5+6", "a%2Bb c"]
 def boolPost : Array String := #["", "on", "on", "off", "true"]
 def boolGet : Array String := #["", "", "t", "true", "1", "f", "false", "0", "on", "yes"]
 def outTypes : Array String := #["Google Sheets", "CSV format", "", "bogus"]
